@@ -613,6 +613,9 @@ func c12Child(in c12Input) c12Result {
 			}
 		}
 	}
+	if res.Direct != "" {
+		return res // something is blocked or broken: do not wait for anybody (the process ends)
+	}
 	stopBg.Store(true)
 	wgBg.Wait()
 	if nilSecret.Load() && res.Direct == "" {
@@ -644,7 +647,17 @@ func c12Child(in c12Input) c12Result {
 	svc.mu.Unlock()
 	time.Sleep(2 * time.Millisecond)
 	stop.Store(true)
-	wgR.Wait()
+	readersDone := make(chan struct{})
+	go func() { wgR.Wait(); close(readersDone) }()
+	select {
+	case <-readersDone:
+	case <-time.After(2 * time.Second):
+		// readers stuck inside a handle: report what is known and do not touch their logs
+		if res.Direct == "" {
+			res.Direct = "read blocked: a reader did not come back from a handle call"
+		}
+		return res
+	}
 	// assemble
 	svc.mu.Lock()
 	inst := append([]c12Inst(nil), svc.installs...)
